@@ -1,4 +1,4 @@
-import SgVerif.C10.Track3
+import SgVerif.C10.Kill
 /-
 C10 — resource failures are reported to every live participant.  Property theorems (nothing else in this file).
 All theorems are over arbitrary states of the transition system of Model.lean (any number of hosts, links, actors,
@@ -262,6 +262,67 @@ theorem killed_on_host_off_partial (s : St) (a : Nat) :
     have := mono (t.actors a).activities (t.emit (.exit a (t.actors a).wannadie)) (.exit a true)
       (by simp [St.emit, ht])
     simpa [St.setActor, St.emit] using this
+
+/-- **killed_on_host_off (run level).**  For EVERY state, when a host that is on is turned off, every actor of that host
+that has not ended is dying when `Host::turn_off` returns — whatever the `finish` / `cancel` calls made in between for
+the other actors of the host, for its peers and for maestro's activities — is still dying after the
+`handle_ended_actions` that ends the maestro iteration (`wannadie` is never reset: `Mono.wd`, proved for every kernel
+function of the iteration), and its on_exit callbacks will get `failed = true`. -/
+theorem killed_on_host_off (s : St) (h a : Nat) (hon : s.hostOn h = true) (ha : a < s.nActors)
+    (hh : (s.actors a).host = h) (he : (s.actors a).ended = false) :
+    ((hostOff s h).actors a).wannadie = true ∧
+    (∀ n, ((handleEnded n (hostOff s h)).actors a).wannadie = true) ∧
+    (s.crashed = false → ((run s [.hostOff h, .handleEnded]).actors a).wannadie = true) ∧
+    (∀ t : St, (t.actors a).wannadie = true → Obs.exit a true ∈ (actorEnd t a).obs) := by
+  have h1 := hostOff_wd s h a hon ha hh he
+  refine ⟨h1, fun n => (mono_handleEnded n _).wd a h1, fun hc => ?_, (killed_on_host_off_partial s a).2⟩
+  show ((step (step s (.hostOff h)) .handleEnded).actors a).wannadie = true
+  have e1 : step s (.hostOff h) = hostOff s h := by simp [step, hc]
+  rw [e1]
+  by_cases hc2 : (hostOff s h).crashed = true
+  · simp [step, hc2]; exact h1
+  · have e2 : step (hostOff s h) .handleEnded = handleEndedAll (hostOff s h) := by simp [step, hc2]
+    rw [e2]
+    exact (mono_handleEnded _ _).wd a h1
+
+/-! Full-strength second half — **`ActorImpl::exit()` runs for every live actor of the host** (its waiting synchros are
+cancelled and finished, its leftover activities cancelled, it is put back in the run list to die):
+`s.hostOn h → a < s.nActors → (s.actors a).host = h → ¬ ended → ¬ wannadie → newIn s (hostOff s h) (.kill a)`.
+This is FALSE on the current code (`killed_on_host_off_exit_counterexample`, finding
+`host-off-marks-peer-dying-without-exit`): when an earlier actor of the same host is killed, the `finish()` of its
+waiting synchro runs `unregister_first_simcall` on a co-hosted peer, which *marks* the peer dying
+(`issuer->set_wannadie()`); `HostImpl::turn_off` then skips it (`ActorImpl::kill` ignores `wannadie()` actors): the peer
+is never rescheduled, never runs its on_exit callbacks, its other activities are never cancelled.
+Proved: the statement under the exact excluding hypothesis `Private s h a` (no other actor of `h` waits on an activity
+on which `a` is registered). -/
+theorem killed_on_host_off_exit_partial (s : St) (h a : Nat) (hon : s.hostOn h = true) (ha : a < s.nActors)
+    (hh : (s.actors a).host = h) (he : (s.actors a).ended = false) (hw : (s.actors a).wannadie = false)
+    (hp : Private s h a) : newIn s (hostOff s h) (.kill a) :=
+  hostOff_kill_new s h a hon ha hh he hw hp
+
+/-- two actors of host 0 in a rendez-vous with each other; host 0 is turned off: actor 0 is killed, `finish` of the
+comm marks actor 1 dying, `turn_off` then skips actor 1: `ActorImpl::exit` never runs for it (on the real library the
+run ends with actor 1 reported in a deadlock, its on_exit callback never called: corpus.txt) -/
+theorem killed_on_host_off_exit_counterexample :
+    let s := run (init [0, 0] (fun _ _ => [])) [.isendWait 0 0, .irecvWait 1 0]
+    s.hostOn 0 = true ∧ (s.actors 1).host = 0 ∧ (s.actors 1).ended = false ∧ (s.actors 1).wannadie = false ∧
+    ((hostOff s 0).actors 1).wannadie = true ∧ Obs.kill 0 ∈ (hostOff s 0).obs ∧ Obs.kill 1 ∉ (hostOff s 0).obs := by
+  decide
+
+/-- non-vacuity of `killed_on_host_off` / `killed_on_host_off_exit_partial`: sender on host 0, receiver on host 1 -/
+example :
+    let s := run (init [0, 1] (fun _ _ => [0])) [.isendWait 0 0, .irecvWait 1 0]
+    s.hostOn 0 = true ∧ 0 < s.nActors ∧ (s.actors 0).host = 0 ∧ (s.actors 0).ended = false ∧
+    (s.actors 0).wannadie = false ∧ Private s 0 0 := by
+  refine ⟨by decide, by decide, by decide, by decide, by decide, ?_⟩
+  intro c j hc hh hj
+  -- the only other actor lives on host 1; the unallocated actor records wait on nothing
+  by_cases h1 : c = 1
+  · subst h1; exact absurd hh (by decide)
+  · have : ((run (init [0, 1] (fun _ _ => [0])) [.isendWait 0 0, .irecvWait 1 0]).actors c).waiting = [] := by
+      simp [run, step, init, alive, isend, irecv, waitOn, register, findMatching, commStart, startAsserts, St.setActor,
+        St.setAct, upd, mboxRemove, terminal, hc, h1]
+    rw [this] at hj; cases hj
 
 /-! ### no_orphan_block
 Full-strength statement: in every reachable state with an empty failed-action set, every live blocked actor waits
